@@ -38,6 +38,8 @@ def mono_of(av):
         return None
     if av.mono is not None:
         return av.mono
+    if av.mono_unknown:
+        return None  # computed from something outside the model: never fall back to the geometric kind
     if has_const(av) and isinstance(cval(av), (int, float)) and not isinstance(cval(av), bool):
         return num(cval(av))
     g = av.geo
@@ -205,7 +207,11 @@ class NumpyModel:
         elif l.axis is not None and r.axis is not None and l.axis != r.axis:
             interp.emit('axis_mix', node, left=l, right=r, op=o)
         # monomials
-        out = out.w(mono=self.mono_binop(interp, o, l, r, node))
+        m_ = self.mono_binop(interp, o, l, r, node)
+        out = out.w(mono=m_)
+        if m_ is None and o in ('+', '-', '*', '/', '//', '**', '@', '%') and (
+                l.mono_unknown or r.mono_unknown or mono_of(l) is not None or mono_of(r) is not None):
+            out = out.w(mono_unknown=True)
         # symbolic integer arithmetic (lengths)
         out = out.w(sym=self.sym_binop(o, l, r))
         if is_arr:
@@ -694,6 +700,8 @@ class NumpyModel:
                 trivial = all(i.lo is None and i.hi is None for i in items)
                 out = out.w(counts_of=base.counts_of, unique_of=base.unique_of, positional_slice=None if trivial else True)
         out = out.w(axes=new_axes, axis=axis_tag, at=base.at if (base.idx is not None and base.idx[0] == 'FRAME') else None)
+        if len(items) == 1 and items[0].dtype == 'bool' and (base.counts_of is not None or base.unique_of is not None):
+            out = out.w(counts_of=base.counts_of, unique_of=base.unique_of)  # value-based selection of unique() output
         n_fancy = sum(1 for it in items if it.ty in ('ndarray', 'list') and it.dtype != 'bool')
         if n_fancy >= 2:
             # a[[i, j], [k, l]] pairs the index lists element by element (a[i, k], a[j, l]); it is not the block a[i..j, k..l]
